@@ -20,8 +20,10 @@ LEVEL = {
             'design_ref': '5 C02, 9a',
             'note': _TB + 'The float32 known-fraction test is an abstract operation in the theorems and Flocq binary32 in the runs.'},
     'C03': {'text': 'Theorems: extractPoints on a sorted batch is the age filter; the batch loop refines per-archive age bands over the stably sorted batch; '
-                    'single updates accept iff in (now-maxRet, now] and go to the first archive with retention >= age.',
-            'design_ref': '5 C03, 9a',
+                    'single updates accept iff in (now-maxRet, now] and go to the first archive with retention >= age. Same slot: the sort is stable (equal timestamps keep the supplied order), '
+                    'inside a window every slot shows the last point of the sorted batch aligned to it, and two batches with the same per-timestamp subsequences are the same update '
+                    '(so the order of a batch matters only among equal timestamps; between different timestamps of one slot the later timestamp wins - the reading of the last sentence recorded in DESIGN.md 11.4).',
+            'design_ref': '5 C03, 9a, 11.4',
             'note': _TB + 'sort.Stable modelled as stable insertion sort.'},
     'C04': {'text': 'Theorems: error iff, no-series iff, bounds/step/count of the series as a function of layout, window and clock only; best archive = first covering.',
             'design_ref': '5 C04',
